@@ -160,10 +160,11 @@ func (q QSpec) structMsg() (*dns.Msg, error) {
 // sf<n> scope n declared for a foreign address, (default) the request OPT
 // echoed; t<n> TTL; nx = validated NXDOMAIN.
 type rule struct {
-	mode string // "" echo | d | m | a | n | f
-	val  int
-	ttl  uint32
-	nx   bool
+	mode  string // "" echo | d | m | a | n | f
+	val   int
+	ttl   uint32
+	nx    bool
+	panic bool // the "resolver" panics: the recovery handler answers SERVFAIL
 }
 
 func parseRule(name string) rule {
@@ -186,6 +187,8 @@ func parseRule(name string) rule {
 			r.mode = "n"
 		case f == "nx":
 			r.nx = true
+		case f == "pn":
+			r.panic = true
 		case len(f) > 2 && f[0] == 's' && strings.ContainsRune("dmaf", rune(f[1])):
 			if n, err := strconv.Atoi(f[2:]); err == nil {
 				r.mode, r.val = string(f[1]), n
@@ -356,6 +359,10 @@ func (e *env) stub(ctx context.Context, req *stack.StubRequest) *stack.StubReply
 		m.Extra = append(m.Extra, opt)
 	}
 
+	if ru.panic {
+		rep.Panic = "c19: scripted resolver panic"
+		return rep
+	}
 	switch {
 	case ru.nx:
 		s.NX = true
@@ -595,6 +602,9 @@ func (e *env) judgeReply(idx int, op *Op, out *outcome) {
 	}
 	r.Eval(1)
 	cls := replyClass(m)
+	if cls == "servfail" && parseRule(op.Q.Name).panic {
+		cls = "servfail-after-panic"
+	}
 	r.Count("reply_class_"+cls, 1)
 	if cls == "badvers" && len(e.identities(op)) > 0 {
 		r.Count("badvers_with_permitted_ecs", 1)
